@@ -87,6 +87,13 @@ bool observe(S &s, std::string &why) {
     if (cols.size() != s.types.size()) { why = "column count changed"; return false; }
     for (size_t i = 0; i < cols.size(); i++)
         if (cols[i].name != s.names[i] || cols[i].dtype != dtOf(s.types[i]) || cols[i].unit != (i % 2 ? "mV" : "")) { why = "schema of column " + std::to_string(i) + " changed"; return false; }
+    for (size_t i = 0; i < cols.size(); i++) {
+        if (s.df.colIndex(s.names[i]) != (unsigned) i) { why = "colIndex(" + s.names[i] + ") = " + std::to_string(s.df.colIndex(s.names[i])); return false; }
+        std::vector<std::string> one = {s.names[i]};
+        std::vector<unsigned> ix = s.df.colIndex(one);
+        if (ix.size() != 1 || ix[0] != (unsigned) i) { why = "colIndex({" + s.names[i] + "}) differs"; return false; }
+        if (s.df.colName((unsigned) i) != s.names[i]) { why = "colName(" + std::to_string(i) + ") = " + s.df.colName((unsigned) i); return false; }
+    }
     for (long r = 0; r < s.rows; r++) {
         std::vector<nix::Variant> row = s.df.readRow((nix::ndsize_t) r);
         if (row.size() != s.types.size()) { why = "readRow size"; return false; }
